@@ -132,6 +132,11 @@ def run(ctx, report):
             conv = rng.choice(['', '\n', '\r\n']) if d[0] not in '\r\n' else ''
             text = docgen.encode(segs, d, conv)
             cases.append((kind, d, text))
+        # long wrapped files in which a segment terminator (or the CR of a CR+LF) is the last character of one of the reader's
+        # 8 KiB reads, so that the line break after it arrives with the next read
+        from props import C12 as _C12
+        for (label, bsegs, brk) in _C12.boundary_documents(rng, ctx['tier'] == 'thorough'):
+            cases.append(('boundary', ('~', '*', ':'), docgen.encode(bsegs, ('~', '*', ':'), brk)))
         reqs = []
         for (kind, d, text) in cases:
             for eol in (0, 1):
